@@ -30,6 +30,7 @@ type GenOpts struct {
 	EmptyLists      bool // representation class: non-nil keyed/ordered lists without entries
 	PreciseDecimals bool // decimal64 values whose float64 needs 16-17 significant digits
 	EmptyKeyStrings bool // the empty string as a list key value
+	GNMIUnions      bool // union values need only be unambiguous as gNMI TypedValues (not as JSON)
 }
 
 // DefaultGen is the baseline option set.
@@ -550,7 +551,12 @@ func (g *Gen) unionValue(parent reflect.Value, f *FieldInfo, yt *yang.YangType, 
 			prim = ev
 		}
 		cv, _ := CanonScalar(prim, true)
-		if !CanonicalInUnion(members, mi, LexForm(cv)) {
+		if canon := CanonicalInUnion; g.Opt.GNMIUnions && !isKey {
+			if !CanonicalInUnionGNMI(members, mi, LexForm(cv)) {
+				g.Skipped["noncanonical-union-value"]++
+				continue
+			}
+		} else if !canon(members, mi, LexForm(cv)) {
 			g.Skipped["noncanonical-union-value"]++
 			continue
 		}
